@@ -262,7 +262,7 @@ def cubes_alias(tier, seed):
                 for d in dflts:
                     out.append({'templates': [a, b], 'dflt': d})
         pick(2, 6, 12)
-        pick(3, 6, 40)
+        pick(3, 5, 40)     # 6 slots over 3 names: z3 gives up (timeout)
         pick(4, 5, 12)
         pick(5, 5, 6)
     return out
